@@ -253,7 +253,22 @@ def mapping_oracle(client, status, payload, tag, real, ret="json"):
 
 
 # ---------------------------------------------------------------------------------------------
+def _cap_violations(ctx, per_family=4):
+    """at most `per_family` reports per (kind, client) so that one defect does not flood the output"""
+    orig, seen = ctx.violation, {}
+    def limited(key, what, replay, no_input=False):
+        parts = key.split(":")
+        fam = parts[0] + ":" + (parts[1].split(".")[0] if len(parts) > 1 else "")
+        is_known = any(k.get("status", "open") == "open" and k["property"] == ctx.prop and k["key"] == key for k in ctx._known)
+        if not is_known:
+            seen[fam] = seen.get(fam, 0) + 1
+            if seen[fam] > per_family: return
+        return orig(key, what, replay, no_input)
+    ctx.violation = limited
+
+
 def run(ctx):
+    _cap_violations(ctx)
     quick = ctx.tier == "quick"
     logging.disable(logging.CRITICAL)   # the clients log every scripted server error
     mods = sc.load_modules()
